@@ -1,5 +1,5 @@
 import RlboxModel.Lemmas.MemLemmas
-import RlboxModel.Props.C06
+import RlboxModel.Props.C06Core
 /-!
 # C07 — Sandbox-memory accesses use exactly the bytes and encoding of the sandbox ABI
 Property theorems only.
